@@ -28,8 +28,8 @@ PROOF_FILES = ["theories/Props/C03.v", "theories/Proofs/SupportA.v", "theories/P
 FUEL = 100000
 DIR_CLASSES = ["random", "random", "axis", "sign", "sign", "pow2", "pow2", "shape_axis", "shape_orth"]
 EPS10 = Fr(10) / Fr(2 ** 52)
-CHUNK_TIMEOUT = 240
-CASE_TIMEOUT = 45
+CASE_CPU = 40        # seconds of user CPU time one case may burn in a shared worker (normal: < 1 s)
+CONFIRM_CPU = 600    # ... when re-run alone, before it is reported as non-terminating
 
 TRACE_SCOPE = {
     "geometry.py": ["support_function_cylinder", "support_function_capsule", "support_function_ellipsoid",
@@ -520,11 +520,13 @@ def compare_case(case, r, m, stats):
 
 # ---------------------------------------------------------------- running
 def run_impl_cases(cases, tag, hits=None):
+    """Watchdog: every case runs under a CPU-time budget inside the worker (the kernel kills the worker
+    when a case burns more than CASE_CPU seconds of user time, which a non-terminating compiled loop
+    does within seconds and machine load does not).  A killed worker's cases are re-run one per
+    process; a case killed again is re-confirmed alone with CONFIRM_CPU before it is called a hang."""
     nw = min(cm.NCPU, max(1, len(cases) // 25))
     chunks = [cases[i::nw] for i in range(nw)]
-    # watchdog: a worker that hangs (a non-terminating compiled loop cannot be interrupted from inside)
-    # is killed after CHUNK_TIMEOUT; its cases are then re-run one per process with CASE_TIMEOUT each
-    res = cm.run_impl_parallel(PID, "c03", [dict(cases=c) for c in chunks], timeout=CHUNK_TIMEOUT, tag=tag)
+    res = cm.run_impl_parallel(PID, "c03", [dict(cases=c, cpu_budget=CASE_CPU) for c in chunks], timeout=3000, tag=tag)
     out = [None] * len(cases)
     consts = None
 
@@ -540,14 +542,20 @@ def run_impl_cases(cases, tag, hits=None):
             for i, x in zip(idxs, rr["result"]["results"]):
                 out[i] = x
         else:
-            singles = cm.run_impl_parallel(PID, "c03", [dict(cases=[c]) for c in ch], timeout=CASE_TIMEOUT, tag=tag + "_iso")
-            for i, s in zip(idxs, singles):
+            singles = cm.run_impl_parallel(PID, "c03", [dict(cases=[c], cpu_budget=CASE_CPU) for c in ch], timeout=3000,
+                                           tag=tag + "_iso")
+            for i, c, s in zip(idxs, ch, singles):
+                if s["status"] != "ok":
+                    s = cm.run_impl(PID, "c03", dict(cases=[c], cpu_budget=CONFIRM_CPU), timeout=6000, tag=tag + "_confirm")
                 if s["status"] == "ok":
                     out[i] = s["result"]["results"][0]
                     consts = consts or s["result"].get("consts")
                     merge(s["result"])
                 else:
-                    out[i] = dict(exc=f"PROCESS-{s['status'].upper()}", exc_msg=f"rc={s.get('rc')} {s.get('log', '')[-300:]}")
+                    what = "HANG" if s.get("rc") in (-26, 128 + 26) or s["status"] == "timeout" else s["status"].upper()
+                    out[i] = dict(exc=f"PROCESS-{what}",
+                                  exc_msg=f"worker rc={s.get('rc')} (killed after {CONFIRM_CPU} s of CPU time in one case = does not terminate) "
+                                          f"{s.get('log', '')[-300:]}")
     return out, consts
 
 
@@ -589,7 +597,8 @@ def run(tier, seed, replay=None):
         "coverage.impl_line_coverage: source lines of /repo executed by this run's inputs (interpreted re-execution of the numba functions' source under sys.settrace in the workers)",
         "harness/compat.py import shim; numpy/numba/CPython/BLAS",
     ]
-    R.check_proofs(PROOF_FILES)
+    R.check_proofs(PROOF_FILES, build_targets=["theories/Props/C03.vo", "theories/Model/ShapesRun.vo",
+                                               "theories/Checker/ShapesCert.vo"])
 
     cases = []
     corpus = cm.VERIF / "corpus" / PID
